@@ -46,6 +46,7 @@ type runner struct {
 	viol      int32 // violations reported for this history (shared by its work items)
 
 	// violation found while executing the history itself (live reopen)
+	deadOut  *Outcome // the live WAL could not be reopened after a clean Close (loud failure: admissible, but recorded)
 	liveViol *verdict
 	liveOut  *Outcome
 	err      error // the history could not be executed (no verdict)
@@ -343,6 +344,7 @@ func (r *runner) exec(op Op) {
 		}
 		if out.W == nil {
 			r.err = fmt.Errorf("live reopen after a clean Close failed: %s/%s %s", out.Class, out.Stage, out.Err)
+			r.deadOut = &out
 			return
 		}
 		r.w = out.W
